@@ -1,5 +1,5 @@
 (* C18  Reduced-form VAR estimates are the least-squares solution, reproduce the data.
-   Only restatements: every proof is `exact <lemma of proofs/RedVarProofs.v or proofs/RedVarDataProofs.v>`.
+   Only restatements: every proof is `exact <lemma of proofs/RedVarProofs.v, RedVarDataProofs.v or RedVarStatements.v>`.
 
    The model text (model/RedVar.v) is written once over the matrix interface lib/MxC18.v::MatOps.  The theorems
    below are about its instance [MC solve] on MathComp matrices over an ARBITRARY field F, for arbitrary numbers of
@@ -8,7 +8,7 @@
    enters only through [solve_contract]; the Lyapunov solver and eigvals enter as hypotheses of the _partial
    statements.  The same text is executed on exact rationals against irispie.RedVAR by harness/C18.py. *)
 From Coq Require Import String.
-From Verif Require Import lib.MxC18 lib.MxC18MC gen.RedVarGen model.RedVar proofs.RedVarProofs proofs.RedVarDataProofs.
+From Verif Require Import lib.MxC18 lib.MxC18MC gen.RedVarGen model.RedVar proofs.RedVarProofs proofs.RedVarDataProofs proofs.RedVarStatements.
 From mathcomp Require Import all_ssreflect all_algebra.
 Set Implicit Arguments.
 Unset Strict Implicit.
@@ -39,7 +39,7 @@ Theorem C18_normal_equations (F : fieldType) (solve : solver F) (n q m k N Nw Nd
   let beta : 'M[F]_(n, n + q * n + (m + k)) := est.2.1.1 in
   (L = row_mx (colsel w Y0) Ld /\ R = row_mx (colsel w (col_mx Y1 (col_mx X Kc))) Rd) /\
   (R *m R^T \in unitmx -> beta *m (R *m R^T) = L *m R^T).
-Proof. by move=> sc; split; [exact: est_inputs | exact: est_normal_equations]. Qed.
+Proof. exact: C18_normal_equations_stmt. Qed.
 Print Assumptions C18_normal_equations.
 
 (* 2. residuals are orthogonal to the regressors on the fitted columns (plus the dummy-observation term;
@@ -55,7 +55,7 @@ Theorem C18_residuals_orthogonal (F : fieldType) (solve : solver F) (n q m k N N
   let U : 'M[F]_(n, N) := est.2.1.2 in
   R *m R^T \in unitmx ->
   colsel w U *m (colsel w (col_mx Y1 (col_mx X Kc)))^T + (Ld - beta *m Rd) *m Rd^T = 0.
-Proof. by move=> sc; exact: est_residual_orthogonal. Qed.
+Proof. exact: C18_residuals_orthogonal_stmt. Qed.
 Print Assumptions C18_residuals_orthogonal.
 
 (* 2b. ... and without prior observations (no dummy columns) it is the plain statement U_w R_w' = 0 *)
@@ -84,7 +84,7 @@ Theorem C18_fit_plus_residual (F : fieldType) (solve : solver F) (n q m k N Nw N
   let c : 'M[F]_(n, k) := rsubmx (rsubmx beta) in
   A *m Y1 + B *m X + c *m Kc + U = Y0 /\
   forall j : 'I_Nw, A *m col (w j) Y1 + B *m col (w j) X + c *m col (w j) Kc + col (w j) U = col (w j) Y0.
-Proof. by split; [exact: est_fit_plus_residual | exact: est_fit_plus_residual_col]. Qed.
+Proof. exact: C18_fit_plus_residual_stmt. Qed.
 Print Assumptions C18_fit_plus_residual.
 
 (* 4. noise-free data generated by a VAR return that VAR (and zero residuals, zero covariance) *)
@@ -101,7 +101,7 @@ Theorem C18_noise_free_recovery (F : fieldType) (solve : solver F) (n q m k N Nw
   R *m R^T \in unitmx ->
   colsel w Y0 = b *m colsel w (col_mx Y1 (col_mx X Kc)) -> Ld = b *m Rd ->
   beta = b /\ colsel w U = 0 /\ cov = 0.
-Proof. by move=> sc /= u; exact: est_noise_free. Qed.
+Proof. exact: C18_noise_free_recovery_stmt. Qed.
 Print Assumptions C18_noise_free_recovery.
 
 (* 5. the residual covariance is the (optionally dof-corrected) second moment of the fitted residuals, symmetric *)
@@ -114,7 +114,7 @@ Theorem C18_cov_is_second_moment (F : fieldType) (solve : solver F) (n q m k N N
   let U : 'M[F]_(n, N) := est.2.1.2 in
   let cov : 'M[F]_n := est.2.2 in
   cov = (Nw%:R - (if dof then m + k else 0)%N%:R)^-1 *: (colsel w U *m (colsel w U)^T) /\ cov^T = cov.
-Proof. by move=> two k1; rewrite -(dof_count_intercept n q m dof k1); exact: est_cov. Qed.
+Proof. exact: C18_cov_is_second_moment_stmt. Qed.
 Print Assumptions C18_cov_is_second_moment.
 
 (* 6. the companion matrix acts on a stack of lags as the stacked VAR recursion: one period of simulate_flat
@@ -127,7 +127,7 @@ Theorem C18_companion_is_stacked_recursion (F : fieldType) (solve : solver F) (n
   = stackf q.+1 (hcons (A *m stackf q.+1 h + c *m const_mx 1 + u + B *m x) h)
   /\ sim_obs (M := MC solve) (n := n) (q := q) (stackf q.+1 (hcons (A *m stackf q.+1 h + c *m const_mx 1 + u + B *m x) h))
      = A *m stackf q.+1 h + c *m const_mx 1 + u + B *m x.
-Proof. by split; [exact: sim_step_stack | exact: sim_obs_stack]. Qed.
+Proof. exact: C18_companion_is_stacked_recursion_stmt. Qed.
 Print Assumptions C18_companion_is_stacked_recursion.
 
 (* 7. simulating ANY coefficients (in particular the estimated ones) over the estimation span, from the data's own
@@ -156,9 +156,7 @@ Theorem C18_companion_mean (F : fieldType) (solve : solver F) (n q m k : nat)
   (forall mu : 'cV[F]_n, (1%:M - sA) *m mu = c *m const_mx 1 ->
      sim_step (M := MC solve) (n := n) (q := q) (m := m) (k := k) A B c (stackf q.+1 (fun _ => mu)) 0 0
      = stackf q.+1 (fun _ => mu)).
-Proof.
-move=> sc; split; [exact: sumA_const | split; [exact: companion_mean | exact: mean_rest_point]].
-Qed.
+Proof. exact: C18_companion_mean_stmt. Qed.
 Print Assumptions C18_companion_mean.
 
 (* 9. eigen-structure of the companion matrix: v = (f 0; ...; f q) is an eigenvector for lambda iff the blocks are
@@ -170,7 +168,7 @@ Theorem C18_companion_eigen_partial (F : fieldType) (solve : solver F) (n q : na
   (companion_T (M := MC solve) (n := n) (q := q) A *m stackf q.+1 f = lam *: stackf q.+1 f
    <-> (A *m stackf q.+1 f = lam *: f 0%N /\ forall i, (i < q)%N -> f i = lam *: f i.+1))
   /\ (forall v : 'cV[F]_(q.+1 * n), exists g, v = stackf q.+1 g).
-Proof. by split; [exact: companion_eigen | exact: stackf_surj]. Qed.
+Proof. exact: C18_companion_eigen_partial_stmt. Qed.
 Print Assumptions C18_companion_eigen_partial.
 
 (* 10. autocovariances are those of the companion form.
@@ -185,10 +183,7 @@ Theorem C18_acov_companion_partial (F : fieldType) (solve : solver F) (n q : nat
   (forall Z : 'M[F]_(n + q * n, n + q * n), topleft (M := MC solve) (n := n) (q := q) (T *m Z) = A *m lsubmx Z) /\
   (Om = T *m Om *m T^T + companion_sigma (M := MC solve) (n := n) (q := q) S ->
      topleft (M := MC solve) (n := n) (q := q) Om = A *m Om *m A^T + S).
-Proof.
-move=> T; split; [exact: acov_from_nth | split; [exact: topleft_T|]].
-by move=> e; apply: acov0_yule_walker; rewrite /lyap_residual /= -e subrr.
-Qed.
+Proof. exact: C18_acov_companion_partial_stmt. Qed.
 Print Assumptions C18_acov_companion_partial.
 
 (* 10b. the scalar formulas regenerated from the source on this run (Dimensions properties, degrees-of-freedom
@@ -230,5 +225,5 @@ Theorem C18_lag_stacking (T : Type) (dflt : T) (p N : nat) (ys : list (list T)) 
   List.nth j (List.nth (i * List.length ys + v)%coq_nat (stack_y1 T p ys) nil) dflt
   = List.nth (p + j - S i)%coq_nat (List.nth v ys nil) dflt
   /\ List.nth j (List.nth v (stack_y0 T p ys) nil) dflt = List.nth (p + j)%coq_nat (List.nth v ys nil) dflt.
-Proof. by move=> H1 H2 H3 H4; split; [exact: (@stack_y1_nth T dflt p N ys i v j H1 H2 H3 H4) | exact: stack_y0_nth]. Qed.
+Proof. exact: C18_lag_stacking_stmt. Qed.
 Print Assumptions C18_lag_stacking.
